@@ -523,7 +523,11 @@ func replay(res *vutil.Result, casesPath, work string, stride, shard, shards int
 	}
 	ch := make(chan item, 64)
 	var wg sync.WaitGroup
-	for w := 0; w < runtime.NumCPU(); w++ {
+	nworkers := 2 * runtime.NumCPU() / shards // the shards together keep every CPU busy without flooding the machine
+	if nworkers < 2 {
+		nworkers = 2
+	}
+	for w := 0; w < nworkers; w++ {
 		wg.Add(1)
 		go func() {
 			defer wg.Done()
